@@ -1,1 +1,3 @@
+pub mod c10;
+pub mod c16;
 pub mod c17;
